@@ -1,35 +1,41 @@
 /-
-C07 helper lemmas, part 3: one stage of TODAY's model (all seven deviations present) outside the deviation regions.
+C07 helper lemmas, part 3: ONE STAGE, assembled from the slices of the exhaustive case analysis
+(Lemmas/RedirF*.lean: the repaired model; Lemmas/RedirC*.lean: the pinned snapshot's model outside the deviation regions).
 (model only — no generated tables)
 -/
 import XonshVerif.Lemmas.Redir
+import XonshVerif.Lemmas.RedirFProcLast
+import XonshVerif.Lemmas.RedirFProcInner
+import XonshVerif.Lemmas.RedirFAliasLast
+import XonshVerif.Lemmas.RedirFAliasInner
+import XonshVerif.Lemmas.RedirCProcFL
+import XonshVerif.Lemmas.RedirCProcFI
+import XonshVerif.Lemmas.RedirCProcNL
+import XonshVerif.Lemmas.RedirCProcNI
+import XonshVerif.Lemmas.RedirCAlias
 set_option linter.unusedSimpArgs false
 set_option linter.unusedVariables false
 namespace Redir
 
-/-- is an external command run threadable under a capturing form? (callable aliases: see `unthreadedAlias`) -/
-def procThreadable (cfg : Cfg) : Kind → Bool
-  | .proc pred => cfg.thread && pred
-  | .alias _ => true
+/-- ONE STAGE, every shape of its slots, every kind, position class, capture form and configuration: the repaired model
+delivers exactly what the documentation says (and fails exactly when the documentation says error) -/
+theorem core_fixed (cfg : Cfg) (cap : Cap) (first last : Bool) (idx : Nat) (kind : Kind)
+    (sin sout serr : Option Slot) (hin : UserIn sin) (hout : UserOut sout) (herr : UserErr serr)
+    (hinv : sout = some .pipeAll → serr = some .toStdout) :
+    Matches (modelStageP Quirks.fixed cfg cap ⟨first, last, idx⟩ (mkBuilt cfg kind sin sout serr))
+      (specCoreB cfg cap first last idx kind (sout.toList.map claimOfOutSlot) (serr.toList.map claimOfErrSlot)
+        (sin.toList.map slotTarget)) := by
+  cases kind with
+  | proc b =>
+    cases last
+    · exact core_fixed_proc_inner cfg cap first idx b sin sout serr hin hout herr hinv
+    · exact core_fixed_proc_last cfg cap first idx b sin sout serr hin hout herr hinv
+  | alias b =>
+    cases last
+    · exact core_fixed_alias_inner cfg cap first idx b sin sout serr hin hout herr hinv
+    · exact core_fixed_alias_last cfg cap first idx b sin sout serr hin hout herr hinv
 
-/-- the spec `cmds_to_specs` ends with for one stage (position class form) -/
-def finalSpecP (q : Quirks) (cfg : Cfg) (cap : Cap) (p : Pos) (built : Spec) : Option Spec :=
-  ((inAtP p built).bind (outAtP p)).bind (finAtP q cfg cap p)
-
-/-- no integer handle reaches `safe_readable` on this (last) spec -/
-def noCrash (q : Quirks) (cap : Cap) (last : Bool) (s : Spec) : Bool :=
-  !crashBefore q s && !(last && crashAfter q cap s)
-
-/-- OUTSIDE THE DEVIATION REGIONS: no `o>e`; no unthreaded callable alias; a callable alias is not the last stage of an
-uncaptured `$[ ]`; the last stage under `!( )` is threadable -/
-def Outside (cfg : Cfg) (cap : Cap) (last : Bool) (kind : Kind) (sout : Option Slot) : Prop :=
-  sout ≠ some .fd2 ∧ unthreadedAlias cfg kind = false ∧
-  (last = true → cap = .uncaptured → isAlias kind = false) ∧
-  (last = true → cap = .object → procThreadable cfg kind = true)
-
-set_option maxRecDepth 4000 in
-set_option maxHeartbeats 4000000 in
-/-- ONE STAGE of today's model outside the deviation regions: exactly the documented routing, and no crash -/
+/-- ONE STAGE of the pinned snapshot's model (all seven deviations) outside the deviation regions: exactly the documented routing, and no crash -/
 theorem core_current (cfg : Cfg) (cap : Cap) (first last : Bool) (idx : Nat) (kind : Kind)
     (sin sout serr : Option Slot) (hin : UserIn sin) (hout : UserOut sout) (herr : UserErr serr)
     (hinv : sout = some .pipeAll → serr = some .toStdout) (hR : Outside cfg cap last kind sout) :
@@ -38,30 +44,13 @@ theorem core_current (cfg : Cfg) (cap : Cap) (first last : Bool) (idx : Nat) (ki
         (sin.toList.map slotTarget)) ∧
     (finalSpecP Quirks.current cfg cap ⟨first, last, idx⟩ (mkBuilt cfg kind sin sout serr)).all
       (noCrash Quirks.current cap last) = true := by
-  obtain ⟨h1, h2, h3, h4⟩ := hR
-  obtain ⟨thread, always, printErr⟩ := cfg
   cases kind with
+  | alias b => exact core_current_alias cfg cap first last idx b sin sout serr hin hout herr hinv hR
   | proc b =>
-    rcases hin with _ | ⟨ti⟩ <;> rcases hout with _ | ⟨to, ao⟩ | _ | _ <;> rcases herr with _ | ⟨te, ae⟩ | _ | _ <;>
-      (try cases ao) <;> (try cases ae) <;> cases b <;> cases first <;> cases last <;> cases thread <;> cases cap <;>
-      first
-        | exact absurd rfl h1
-        | (have := h4 rfl rfl; simp [procThreadable] at this; done)
-        | exact ⟨rfl, rfl⟩
-        | exact ⟨trivial, rfl⟩
-        | (exfalso; simp at hinv; done)
-        | (cases always <;> first | exact ⟨rfl, rfl⟩ | exact ⟨trivial, rfl⟩)
-  | alias b =>
-    have hb : b = true ∧ thread = true := by
-      cases b <;> cases thread <;> simp [unthreadedAlias] at h2 ⊢
-    obtain ⟨rfl, rfl⟩ := hb
-    rcases hin with _ | ⟨ti⟩ <;> rcases hout with _ | ⟨to, ao⟩ | _ | _ <;> rcases herr with _ | ⟨te, ae⟩ | _ | _ <;>
-      (try cases ao) <;> (try cases ae) <;> cases first <;> cases last <;> cases cap <;>
-      first
-        | exact absurd rfl h1
-        | (have := h3 rfl rfl; simp [isAlias] at this; done)
-        | exact ⟨rfl, rfl⟩
-        | exact ⟨trivial, rfl⟩
-        | (exfalso; simp at hinv; done)
+    cases first <;> cases last
+    · exact core_current_proc_ni cfg cap idx b sin sout serr hin hout herr hinv hR
+    · exact core_current_proc_nl cfg cap idx b sin sout serr hin hout herr hinv hR
+    · exact core_current_proc_fi cfg cap idx b sin sout serr hin hout herr hinv hR
+    · exact core_current_proc_fl cfg cap idx b sin sout serr hin hout herr hinv hR
 
 end Redir
